@@ -357,12 +357,43 @@ static std::string flip_last(std::string h) {
 static std::vector<Filt> filters_for(const std::vector<LayerSpec>& ls, const PDU& top) {
     std::vector<Filt> f;
     size_t i = 0;
-    if (ls.empty() || ls[0].w[0] != "eth") return f;
-    f.push_back({"esrc", "ether src " + macs(ls[0].w[2]), 1});
-    f.push_back({"edst", "ether dst " + macs(ls[0].w[1]), 1});
-    f.push_back({"esrc!", "ether src " + macs(flip_last(ls[0].w[2])), 0});
+    if (ls.empty()) return f;
+    const std::string& link = ls[0].w[0];
+    if (link != "eth" && link != "loop" && link != "sll") return f;
+    if (link == "eth") {
+        f.push_back({"esrc", "ether src " + macs(ls[0].w[2]), 1});
+        f.push_back({"edst", "ether dst " + macs(ls[0].w[1]), 1});
+        f.push_back({"esrc!", "ether src " + macs(flip_last(ls[0].w[2])), 0});
+    }
     i = 1;
     std::string pre;
+    if (link == "eth" && ls.size() > 1 && ls[1].w[0] == "pppoe") {
+        // RFC 2516 stage by ether type; libpcap's `pppoes <id>` also compares the session id
+        const bool session = num(ls[1].w[1]) == 0;
+        f.push_back({"pppoes", "pppoes", session ? 1 : 0});
+        f.push_back({"pppoed", "pppoed", session ? 0 : 1});
+        if (session) {
+            f.push_back({"pppoesid", "pppoes " + ls[1].w[2], 1});
+            f.push_back({"pppoesid!", "pppoes " + std::to_string(num(ls[1].w[2]) ^ 1), 0});
+        }
+        return f;
+    }
+    if (link == "eth" && ls.size() > 1 && ls[1].w[0] == "mpls") {
+        // `mpls <label>` looks at the top label; a following `mpls <label>` at the next one
+        std::string e;
+        size_t j = 1;
+        while (j < ls.size() && ls[j].w[0] == "mpls") {
+            e += (e.empty() ? "" : " and ") + std::string("mpls ") + ls[j].w[1];
+            ++j;
+        }
+        f.push_back({"mpls", e, 1});
+        f.push_back({"mpls!", "mpls " + std::to_string(num(ls[1].w[1]) ^ 1), 0});
+        if (j < ls.size() && (ls[j].w[0] == "ip" || ls[j].w[0] == "ip6")) {
+            // after the bottom of the stack libpcap guesses IPv4 / IPv6 from the version nibble
+            f.push_back({"mplsip", e + " and " + ls[j].w[0], 1});
+        }
+        return f;
+    }
     while (i < ls.size() && ls[i].w[0] == "dot1q") {
         std::string v = "vlan " + ls[i].w[3];
         std::string nv = "vlan " + std::to_string(num(ls[i].w[3]) ^ 1);
@@ -423,8 +454,8 @@ static std::vector<Filt> filters_for(const std::vector<LayerSpec>& ls, const PDU
 
 static std::map<std::string, bpf_program> cache;
 
-static int run_filter(pcap_t* dead, const std::string& expr, const bytes& data) {
-    auto it = cache.find(expr);
+static int run_filter(pcap_t* dead, const std::string& key, const std::string& expr, const bytes& data) {
+    auto it = cache.find(key);
     if (it == cache.end()) {
         if (cache.size() > 4000) {
             for (auto& kv : cache) pcap_freecode(&kv.second);
@@ -432,7 +463,7 @@ static int run_filter(pcap_t* dead, const std::string& expr, const bytes& data) 
         }
         bpf_program prog;
         if (pcap_compile(dead, &prog, expr.c_str(), 1, PCAP_NETMASK_UNKNOWN) != 0) return -1;
-        it = cache.insert(std::make_pair(expr, prog)).first;
+        it = cache.insert(std::make_pair(key, prog)).first;
     }
     pcap_pkthdr h;
     memset(&h, 0, sizeof(h));
@@ -442,6 +473,8 @@ static int run_filter(pcap_t* dead, const std::string& expr, const bytes& data) 
 
 int main() {
     pcap_t* dead = pcap_open_dead(DLT_EN10MB, 65535);
+    pcap_t* dead_null = pcap_open_dead(DLT_NULL, 65535);
+    pcap_t* dead_sll = pcap_open_dead(DLT_LINUX_SLL, 65535);
     int rc = line_loop([&](const std::string& line) -> std::string {
         auto w = words(line);
         if (w.empty()) return "bad-op";
@@ -479,7 +512,9 @@ int main() {
             for (auto& f : filters_for(ls, *top)) {
                 if (!first) o << ",";
                 first = false;
-                o << f.name << ":" << run_filter(dead, f.expr, out) << ":" << f.expected;
+                const std::string& lk = ls[0].w[0];
+                pcap_t* h = lk == "loop" ? dead_null : lk == "sll" ? dead_sll : dead;
+                o << f.name << ":" << run_filter(h, lk + "|" + f.expr, f.expr, out) << ":" << f.expected;
             }
             return o.str();
         }
@@ -505,5 +540,7 @@ int main() {
     for (auto& kv : cache) pcap_freecode(&kv.second);
     cache.clear();
     pcap_close(dead);
+    pcap_close(dead_null);
+    pcap_close(dead_sll);
     return rc;
 }
